@@ -1321,3 +1321,127 @@ def stdin_file_is(stdin_file, parts, trace, j):
         return stdin_file.g_path is parts[0].contents().as_file
     cs = [e for e in trace if e[0] == CONCAT]
     return len(cs) == 1 and is_same_seq(cs[0][1], parts, j) and stdin_file.g_path is cs[0][2].contents().as_file
+
+
+# ============================================================================== the interpreter actors
+
+from exactly_lib.impls.actors import file_interpreter
+from exactly_lib.impls.actors.source_interpreter import executor as src_interpreter_executor
+from exactly_lib.type_val_deps.dep_variants.sdv.full_deps.resolving_environment import FullResolvingEnvironment
+
+INTERPRETER_COMMAND = 'interpreter-command'
+SOURCE_FILE = 'source-file'
+ACT_ARGUMENTS = 'act-arguments'
+
+
+class InterpreterCommandDdvI(Interface):
+    attrs = {'validators': ListOf(Any_)}
+    methods = {'value_of_any_dependency': Method(returns=COMMAND, event=INTERPRETER_COMMAND)}
+
+
+class InterpreterCommandSdvI(Interface):
+    target_class = CommandSdv
+    attrs = {'references': ListOf(Any_)}
+    methods = {'resolve': Method(returns=Iface(InterpreterCommandDdvI))}
+
+
+class SourcePathDdvI(Interface):
+    methods = {'value_of_any_dependency': Method(returns=Iface(PathI), event=SOURCE_FILE)}
+
+
+class SourcePathSdvI(Interface):
+    attrs = {'references': ListOf(Any_)}
+    methods = {'resolve': Method(returns=Iface(SourcePathDdvI))}
+
+
+class ActArgumentsDdvI(Interface):
+    attrs = {'validators': ListOf(Any_)}
+    methods = {'value_of_any_dependency': Method(returns=ARGUMENTS, event=ACT_ARGUMENTS)}
+
+
+class ActArgumentsSdvI(Interface):
+    attrs = {'references': ListOf(Any_)}
+    methods = {'resolve': Method(returns=Iface(ActArgumentsDdvI))}
+
+
+def _parsing(interp, args, kwargs):
+    """assumed: parsing of the act phase for the file interpreter actor gives a source file path and arguments
+    (parse_path / parse_arguments: C09, C12)"""
+    info = object.__new__(file_interpreter._SourceInfoForInterpreterWithArgumentList)
+    info.path = new_opaque(interp, SourcePathSdvI, 'act.source-file')
+    info.arguments = new_opaque(interp, ActArgumentsSdvI, 'act.arguments')
+
+    class _P:
+        def parse(self):
+            return info
+
+    return _P()
+
+
+M.model(file_interpreter._Parsing, _parsing)
+M.trust('file_interpreter._Parsing(instructions).parse() gives the source file (a path) and the argument list written '
+        'in the act phase (syntax of paths and argument lists: C09, C12)')
+
+
+def _returned(trace, event):
+    return [e[2] for e in trace if e[0] == event + ':returned'][0]
+
+
+def file_interpreter_argv(cmd, trace, j):
+    """argv = interpreter command (its driver and arguments) + the source file + the arguments of the act phase"""
+    ic = _returned(trace, INTERPRETER_COMMAND)
+    args = _returned(trace, ACT_ARGUMENTS)
+    n = len(ic._arguments)
+    return type(cmd) is Command and cmd._driver is ic._driver \
+        and len(cmd._arguments) == n + 1 + len(args) \
+        and ((not (0 <= j < n)) or cmd._arguments[j] == ic._arguments[j]) \
+        and cmd._arguments[n] == str(_returned(trace, SOURCE_FILE)) \
+        and ((not (0 <= j < len(args))) or cmd._arguments[n + 1 + j] == args[j]) \
+        and len(ic._arguments) == n
+
+
+M.contract('exactly_lib.impls.actors.file_interpreter:_Actor.parse',
+           params=dict(self=Inst(file_interpreter._Actor, _interpreter=Iface(InterpreterCommandSdvI)),
+                       instructions=Any_),
+           ghosts=dict(j=Int, env=Inst(FullResolvingEnvironment, _tuple=[Any_, Any_, Any_])),
+           returns=Any_,
+           ensures={'for every resolving environment: the command to execute is interpreter + source file + arguments '
+                    '(the interpreter\'s own argument list is not modified)': lambda result, env, trace, j:
+           type(result) is file_interpreter._ActionToCheck
+           and file_interpreter_argv(result._make_command(env), trace, j)},
+           raises_only=())
+
+
+# --- source interpreter: the act phase source is written to a file that becomes the last argument
+
+class InterpreterSdvI(Interface):
+    target_class = CommandSdv
+    methods = {'new_with_additional_arguments': Method(returns=Any_, event='new_with_additional_arguments')}
+
+
+class InterpreterAndSourceI(Interface):
+    attrs = {'interpreter': Iface(InterpreterSdvI), 'source': Any_}
+
+
+M.contract('exactly_lib.impls.actors.source_interpreter.executor:Executor._command_to_execute',
+           params=dict(self=Inst(src_interpreter_executor.Executor, os_services=Any_, act_source_file_base_name=Str,
+                                 object_to_execute=Iface(InterpreterAndSourceI), source_file_path=Iface(PathI)),
+                       environment=Any_),
+           returns=Any_,
+           ensures={'the interpreter command with ONE additional argument: the path of the source file':
+                    lambda self, result, trace:
+                    len([e for e in trace if e[0] == 'new_with_additional_arguments']) == 1
+                    and result is _returned(trace, 'new_with_additional_arguments')
+                    and _single_constant_argument(
+                        [e[2][0] for e in trace if e[0] == 'new_with_additional_arguments'][0],
+                        str(self.source_file_path))},
+           raises_only=())
+
+
+def _single_constant_argument(arguments_sdv, text):
+    """the ArgumentsSdv consists of exactly one element: the string constant `text`"""
+    es = arguments_sdv._arguments._elements
+    if len(es) != 1 or len(arguments_sdv._validators) != 0:
+        return False
+    fragments = es[0]._string_sdv._fragment_sdvs
+    return len(fragments) == 1 and fragments[0].string_constant == text
